@@ -185,7 +185,8 @@ def run(rep, tier, seed, replay):
         cases = make_cases(rng, tier) + loop_cases(tier)
     rep.evaluations = len(cases)
     rep.rule = ("every non-terminating program kind (loops of every kind, recursion, mutually spawning scripts, sleepers, waitUntil) x run history "
-                "(alone, followed by a short run, after idle gaps longer than the limit, after a short run) + idle-gap sweeps of short runs + while-loop shapes x caps; "
+                "(alone, followed by a short run, after idle gaps longer than the limit, after a short run, followed by expression evaluations) + idle-gap sweeps of short runs and evaluations "
+                "+ start requests made during a run + while-loop shapes x caps; "
                 "distinct by program+history; non-trivial = all")
     events = vlib.run_driver("run", [{k: c[k] for k in ("id", "conf", "runs")} for c in cases], wdir, kind="rel", timeout_s=25)
     by = vlib.events_by_case(events)
